@@ -284,7 +284,6 @@ func (r *rpcSide) exec(c string) string {
 	case "pl":
 		req, force := buildPessLock(f)
 		req.Context = nil
-		r.st.ZZResetDeadlockDetector()
 		resp, e := r.send(tikvrpc.CmdPessimisticLock, req, r.ctx(nil, false))
 		return done(resp, e, func() string { return canonPessLock(req, resp.Resp.(*kvrpcpb.PessimisticLockResponse), force) })
 	case "pr":
@@ -497,7 +496,7 @@ func runRPC(id string, cmds []string, split bool) {
 		} else if got != want {
 			verdict = "fail:answer (region " + fmt.Sprint(side.cur) + ", effective command " + eff + ")"
 		}
-		if dd, ds := dump(direct), dump(side.st); dd != ds {
+		if dd, ds := dump(direct)+" | "+detectorDump(direct), dump(side.st)+" | "+detectorDump(side.st); dd != ds {
 			verdict = "fail:state direct=" + dd + " rpc=" + ds + " (region " + fmt.Sprint(side.cur) + ", effective command " + eff + ")"
 		}
 		fmt.Fprintf(out, "H\t%s\t%s\t%s\t%s\n", c, want, got, verdict)
